@@ -7,6 +7,7 @@ import (
 	"path/filepath"
 	"sort"
 	"strings"
+	"time"
 
 	"verifharness/corr"
 )
@@ -26,21 +27,31 @@ func Run(c *corr.Ctx) {
 		}
 		return
 	}
+	t0 := time.Now()
+	lap := func(what string) {
+		if os.Getenv("VERIF_TIMING") != "" {
+			fmt.Fprintf(os.Stderr, "[time] %s: %.1fs\n", what, time.Since(t0).Seconds())
+		}
+		t0 = time.Now()
+	}
 	corpus(c)
 
 	// (a) Decode
-	for i, n := 0, c.N(12000, 300000); i < n; i++ {
+	for i, n := 0, c.N(8000, 300000); i < n; i++ {
 		decRun(c, genDecHistory(c), fmt.Sprintf("dec-%d", i))
 	}
+	lap("dec random")
 	decBoundary(c)
 	decLateSweep(c)
 	decEnum(c)
+	lap("dec sweeps+enum")
 
 	// (b) NTP
 	per := 100
 	for i, n := 0, c.N(7000, 40000); i < n; i++ { // 1.5 * per * n encode/decode pairs: ≥ 10^6 in the quick tier
 		ntpRun(c, genNtpBatch(c, per), fmt.Sprintf("ntp-%d", i))
 	}
+	lap("ntp batches")
 	if c.Quick() {
 		// 20 windows of 10^6 consecutive fractions, always including both ends of the range
 		fracSweep(c, 0, 1000000, "frac-0")
@@ -57,11 +68,15 @@ func Run(c *corr.Ctx) {
 		c.Exhaustive()
 	}
 
+	lap("ntp fraction sweeps")
 	// (c) sender report → PacketNTP
-	for i, n := 0, c.N(10000, 250000); i < n; i++ {
+	for i, n := 0, c.N(8000, 250000); i < n; i++ {
 		srRun(c, genSRHistory(c), fmt.Sprintf("sr-%d", i))
 	}
 	srBoundary(c)
+	lap("sr")
+	c.Flush()
+	lap("final flush")
 }
 
 // runInput executes one recorded input (the `input` of a violation / a corpus file).
